@@ -390,6 +390,24 @@ Theorem C02_subpattern_on_subject_refuted :
 Proof. exact subpattern_on_subject_refuted. Qed.
 Print Assumptions C02_subpattern_on_subject_refuted.
 
+(* (1d) round 5: the evaluated COMPARATOR_TO_OPERATOR table (all ten operators: each positive operator computes its
+   comparison, each negative operator is the complement), and `len(x) in C` / `len(x) not in C`: keeps-value; the
+   seeded rule (the negative operator of `in` is not the complement) is refuted *)
+Theorem C02_comparator_table_agrees : forallb cmp_row_ok gen_cmp_rows = true.
+Proof. exact comparator_table_agrees. Qed.
+Print Assumptions C02_comparator_table_agrees.
+
+Theorem C02_lenin_keeps_value : forall V ns pol o,
+  member o V = true -> holds_lenin ns o = Some pol -> member o (lenin_narrow V ns pol) = true.
+Proof. exact lenin_keeps_value. Qed.
+Print Assumptions C02_lenin_keeps_value.
+
+Theorem C02_lenin_seeded_rule_refuted :
+  exists V ns pol o, member o V = true /\ holds_lenin ns o = Some pol /\
+    member o (lenin_narrow_with false V ns pol) = false.
+Proof. exact lenin_seeded_rule_refuted. Qed.
+Print Assumptions C02_lenin_seeded_rule_refuted.
+
 Theorem C02_stored_disjoint_rule_refuted :
   exists cur cons V c pol o d,
     In d cur /\ member o V = true /\ (In d cons -> holds c o = Some pol) /\ c02_guard c o = true /\
